@@ -102,6 +102,19 @@ class Scratch:
         shutil.rmtree(tdir, ignore_errors=True)
         return p.stdout
 
+    def build_jiff_mir(self, variant):
+        """MIR of the jiff crate itself (same flags): bodies of callees the inliner left as calls"""
+        t0 = time.time()
+        prof = {"rel": "dev", "dbg": "dev"}[variant]
+        tdir = os.path.join(self.dir, "target-jmir-" + variant)
+        flags = MIR_RUSTFLAGS + (" -C debug-assertions=off -C overflow-checks=on" if variant == "rel" else " -C debug-assertions=on -C overflow-checks=on")
+        p = self.sh(["cargo", "+" + NIGHTLY, "rustc", "--offline", "--lib", "--no-default-features", "--features", "alloc",
+                     "--profile", prof, "--target-dir", tdir, "--", "-Zunpretty=mir"],
+                    cwd=os.path.join(self.dir, "jiff"), env={"RUSTFLAGS": flags})
+        self.times["jiff_mir_" + variant] = time.time() - t0
+        shutil.rmtree(tdir, ignore_errors=True)
+        return p.stdout
+
     def write_runner(self, funcs):
         src = gen_runner(funcs)
         with open(os.path.join(self.vk, "src", "bin", "runner.rs"), "w") as f:
@@ -419,11 +432,12 @@ G = {}   # globals inherited by forked workers: funcs, allocs, enums, spec kerne
 
 
 def encode_kernel(kspec, variant, bounds=None):
-    funcs, allocs = G["mir"][variant]
+    funcs, allocs, resolver = G["mir"][variant]
     fn = funcs.get(kspec.name)
     if fn is None:
         raise Refuse("kernel %s not found in MIR dump" % kspec.name)
-    enc = mirenc.Encoder(fn, allocs, G["enums"], name_prefix="", debug_assertions=(variant == "dbg"), bounds=bounds)
+    enc = mirenc.Encoder(fn, allocs, G["enums"], name_prefix="", debug_assertions=(variant == "dbg"), bounds=bounds,
+                         resolver=resolver)
     enc.run()
     return enc
 
@@ -502,7 +516,7 @@ def worker(job):
     fn = enc0.fn
     res["stats"] = dict(enc0.stats, mir_lines=fn.nlines, defs=len(enc0.defs), nonlinear=enc0.nonlinear,
                         inlined=sorted(set(x.split("::<")[0] for x in fn.inlined if "jiff" in x))[:60],
-                        opaque_calls=enc0.opaque_calls, encode_s=round(time.time() - t0, 3))
+                        opaque_calls=enc0.opaque_calls, inlined_calls=enc0.inlined_calls, encode_s=round(time.time() - t0, 3))
     res["notes"] = sorted(set(enc0.notes))
     try:
         ret_ty = parse_ty(fn.ret)
@@ -554,9 +568,15 @@ def worker(job):
                 continue
             obls.append(("nopanic:" + ob.kind, ob.label, ob.cond))
         try:
+            roles = [(fid, rfn(ins)) for fid, rfn in kspec.known]
+            outside = z3.And([z3.Not(r) for _, r in roles]) if roles else z3.BoolVal(True)
             for label, fnc in kspec.claims:
-                obls.append(("claim", label, z3.And(enc.ret_cond, z3.Not(fnc(ins, out)))))
+                obls.append(("claim", label, z3.And(outside, enc.ret_cond, z3.Not(fnc(ins, out)))))
             wits = []
+            if roles and bi == 0:
+                anyclaim = z3.Or([z3.Not(fnc(ins, out)) for _, fnc in kspec.claims])
+                for fid, r in roles:
+                    wits.append(("known:" + fid, "known finding %s still reproduces inside its role" % fid, z3.And(r, enc.ret_cond, anyclaim)))
             if bi == 0:
                 wits.append(("witness", "kernel returns for some input satisfying pre", enc.ret_cond))
                 for label, fnc in kspec.witnesses:
@@ -585,10 +605,11 @@ def worker(job):
                     entry.update(result="unsat", solver="z3py-inproc", secs=round(time.time() - t1, 3))
                     res["obligations"].append(entry)
                     return
-                if r == z3.sat and expect == "sat":
+                if r == z3.sat and expect in ("sat", "either"):
                     m = s2.model()
                     entry.update(result="sat", solver="z3py-inproc", secs=round(time.time() - t1, 3),
-                                 model={str(c): str(m.eval(c, model_completion=True)) for c in ins})
+                                 model={str(c): (z3.is_true(m.eval(c, model_completion=True)) if z3.is_bool(c) else m.eval(c, model_completion=True).as_long()) for c in ins},
+                                 inputs=[str(c) for c in ins])
                     s2.pop()
                     res["obligations"].append(entry)
                     return
@@ -607,7 +628,7 @@ def worker(job):
         for kind, label, goal in obls:
             add_query(kind, label, goal, "unsat")
         for kind, label, goal in wits:
-            add_query(kind, label, goal, "sat")
+            add_query(kind, label, goal, "either" if kind.startswith("known:") else "sat")
     res["n_claims"] = len(kspec.claims)
     res["total_s"] = round(time.time() - t0, 3)
     return res
@@ -653,6 +674,96 @@ def replay_check(kspec, variant, model_inputs, scratch, fn):
     return info
 
 
+def count_args(argtxt):
+    return len(re.findall(r"(?:^|, )_\d+: ", argtxt))
+
+
+def first_arg_type(argtxt):
+    m = re.match(r"_1: (.*?)(?:, _2: |$)", argtxt)
+    if not m:
+        return None
+    t = m.group(1).strip()
+    t = re.sub(r"^&('\w+ )?(mut )?", "", t)
+    t = mirenc.strip_generics(t)
+    return t.split("::")[-1]
+
+
+def make_resolver(vk_all, jix, vix=None):
+    """callee text at a call site -> parsed Function (or None): first the wrapper crate's own
+    helpers, then monomorphic functions of the jiff crate located in its MIR dump"""
+    def ret_type_of(c):
+        hdr_end = jix.text.find("\n", c[2])
+        hdr = jix.text[c[2]:hdr_end]
+        r = hdr.rfind(") -> ")
+        t = hdr[r + 5:].rstrip(" {")
+        return mirenc.strip_generics(t).split("::")[-1]
+
+    def resolve(func, nargs, conv=None, promoted=None, named_const=None):
+        if named_const is not None:
+            for ix in (jix, vix):
+                if ix is None:
+                    continue
+                f = ix.get_named_const(*named_const)
+                if f is not None:
+                    return f
+            return None
+        if promoted is not None:
+            last, idx, owner = promoted
+            own = owner.split("::")[-2] if owner.count("::") else None
+            for ix in (vix, jix):
+                if ix is None:
+                    continue
+                f = ix.get_promoted(last, idx, own)
+                if f is not None:
+                    return f
+            return None
+        if conv is not None:
+            if jix is None:
+                return None
+            src, tgt = conv
+            cs = [c for c in jix.candidates("from") if count_args(c[1]) == 1 and first_arg_type(c[1]) == src and ret_type_of(c) == tgt]
+            return jix.get(cs[0][2]) if len(cs) == 1 else None
+        f = mirenc.norm_callee(func)
+        if f.startswith("QSELF[") or "{closure" in f:
+            return None
+        # a generic instantiation resolves to the polymorphic body; that is only usable when the body's
+        # generic-dependent calls are conversions the encoder dispatches on value tags (otherwise the
+        # encoder refuses inside the body). Ranged-integer generics are never taken from the dump.
+        if "rangeint::" in f:
+            return None
+        sg = mirenc.strip_generics(f)
+        segs = sg.split("::")
+        last = segs[-1]
+        loc = vk_all.get(sg) or vk_all.get(last)
+        if loc is not None and len(loc.args) == nargs:
+            return loc
+        if jix is None:
+            return None
+        cands = [c for c in jix.candidates(last) if count_args(c[1]) == nargs and "{closure" not in c[0]]
+        if len(segs) >= 2:
+            owner = segs[-2]
+            meth = [c for c in cands if "<impl at" in c[0] and first_arg_type(c[1]) == owner]
+            free = [c for c in cands if "<impl at" not in c[0] and (c[0].split("::")[-2:-1] in ([owner], []))]
+            if len(meth) == 1:
+                return jix.get(meth[0][2])
+            if not meth and len(free) == 1:
+                return jix.get(free[0][2])
+            # associated functions without self (e.g. Date::constrain_ranged): unique by name,
+            # or the unique one returning the owner type (constructors such as Time::midnight)
+            assoc = [c for c in cands if "<impl at" in c[0]]
+            if not meth and not free and len(assoc) == 1:
+                return jix.get(assoc[0][2])
+            if not meth and not free:
+                ctor = [c for c in assoc if ret_type_of(c) == owner]
+                if len(ctor) == 1:
+                    return jix.get(ctor[0][2])
+            return None
+        if len(cands) == 1:
+            return jix.get(cands[0][2])
+        return None
+    return resolve
+
+
 def index_funcs(fs, names):
     """rustc prints trimmed paths (`k_x` when unique, `c01::k_x` otherwise): map spec names to functions"""
     out = {}
@@ -683,7 +794,8 @@ def run_property(pid, spec_kernels, modules, tier, seed, timeout_s, scratch_keep
         for v in variants:
             txt = sc.build_mir(v)
             fs, al = mirparse.parse_mir(txt)
-            mir[v] = (index_funcs(fs, [k.name for k in kernels]), al)
+            jix = mirparse.MirIndex(sc.build_jiff_mir(v), "jiff-" + v)
+            mir[v] = (index_funcs(fs, [k.name for k in kernels]), al, make_resolver(fs, jix, mirparse.MirIndex(txt, "vkern-" + v)))
         allfuncs = mir[variants[0]][0]
         sc.write_runner({k.name: allfuncs[k.name] for k in kernels if k.name in allfuncs})
         profs = []
@@ -772,6 +884,16 @@ def run_property(pid, spec_kernels, modules, tier, seed, timeout_s, scratch_keep
             for q in r["obligations"]:
                 exp = q["expect"]
                 res = q["result"]
+                if exp == "either":
+                    if res == "sat":
+                        mi = q.get("model") or {}
+                        order = q.get("inputs") or sorted(mi)
+                        model_inputs = {nm: mi[nm] for nm in order if nm in mi}
+                        rp = replay_check(k, r["variant"], model_inputs, sc, fn)
+                        q["replay"] = rp
+                        if rp.get("failed_claims") or rp.get("panics"):
+                            R.setdefault("known_hits", []).append({"finding": q["kind"].split(":", 1)[1], "kernel": r["kernel"], "replay": rp})
+                    continue
                 if exp == "sat":
                     if res != "sat":
                         R["inconclusive"].append({"kernel": r["kernel"], "variant": r["variant"], "query": q["label"],
